@@ -38,8 +38,9 @@ import (
 // written: their order and multiplicity do not matter to a lock discipline.
 type Step struct {
 	K string   `json:"k"` // acq | rel | call | acc
-	A string   `json:"a"` // call: sub-object field ("" = same receiver); acq / rel: "wait" inside Cond.Wait
+	A string   `json:"a"` // call: sub-object field ("" = the object itself); acq / rel: "" exclusive, "shared" (RLock / RUnlock), "wait" inside Cond.Wait
 	B string   `json:"b"` // call: method name
+	O string   `json:"o"` // the instance the step is about: "" the receiver, else the PEER instance bound to the parameter of this name
 	R []string `json:"r"` // acc: fields read (sorted)
 	W []string `json:"w"` // acc: fields written (sorted)
 }
@@ -49,6 +50,7 @@ type Method struct {
 	Pub    bool     `json:"pub"`
 	Steps  []Step   `json:"steps"`
 	Params []string `json:"params"` // parameter types as written (information)
+	Peers  [][]string `json:"peers"` // [parameter, type]: parameters that hold an instance of a table type (PutAll(other *T))
 	Pos    string   `json:"pos"`
 }
 
@@ -57,12 +59,14 @@ type TypeInfo struct {
 	Pkg     string             `json:"pkg"`
 	File    string             `json:"file"`
 	Lock    string             `json:"lock"`     // name of the lock field
-	Kind    string             `json:"lockkind"` // mutex | cond
+	Kind    string             `json:"lockkind"` // mutex | rwmutex | cond | none (no lock field of a known type)
 	Fields  []string           `json:"fields"`
 	Sub     [][]string         `json:"sub"` // [field, type] for fields holding another table type
 	Methods map[string]*Method `json:"methods"`
 	Pubs    []string           `json:"pubs"` // the public methods, sorted (gives pairs an order)
 	ref     map[string]bool    // fields that hold a reference (pointer, slice, map, func, chan, interface)
+	ptr     map[string]bool    // ... a pointer (what it refers to is a node)
+	name    string
 }
 
 // Table is the whole extraction.
@@ -132,8 +136,10 @@ func typeString(e ast.Expr) string {
 func lockKind(e ast.Expr) string {
 	s := typeString(e)
 	switch s {
-	case "sync.Mutex", "*sync.Mutex", "sync.RWMutex", "*sync.RWMutex":
+	case "sync.Mutex", "*sync.Mutex":
 		return "mutex"
+	case "sync.RWMutex", "*sync.RWMutex":
+		return "rwmutex"
 	case "*sync.Cond", "sync.Cond":
 		return "cond"
 	}
@@ -154,8 +160,19 @@ func refKind(e ast.Expr) bool {
 	return false
 }
 
-// Extract parses the three packages under repo and builds the table.
-func Extract(repo string) (*Table, error) {
+// Extract parses the three packages under repo and builds the table: every
+// anchored struct type that carries a lock field of a known kind, and every
+// type named in must (the collection types of the property) whatever it
+// carries -- a collection whose lock is of a kind this pass does not know, or
+// that has none, stays in the model as a type that takes no lock (every one of
+// its accesses is then unprotected, which TLC reports and the race-detector
+// build has to confirm or refute).
+func Extract(repo string, must ...string) (*Table, error) {
+	need := map[string]bool{}
+	for _, n := range must {
+		need[n] = true
+	}
+	structs := map[string]bool{} // every struct type of the three packages (node types among them)
 	tab := &Table{Types: map[string]*TypeInfo{}}
 	fset := token.NewFileSet()
 	type fdecl struct {
@@ -191,7 +208,8 @@ func Extract(repo string) (*Table, error) {
 						if !ok {
 							continue
 						}
-						ti := &TypeInfo{Pkg: pkg, File: "util/" + pkg + "/" + name, Methods: map[string]*Method{}, Sub: [][]string{}, Fields: []string{}, ref: map[string]bool{}}
+						structs[ts.Name.Name] = true
+						ti := &TypeInfo{Pkg: pkg, File: "util/" + pkg + "/" + name, Methods: map[string]*Method{}, Sub: [][]string{}, Fields: []string{}, ref: map[string]bool{}, ptr: map[string]bool{}, name: ts.Name.Name}
 						ft := map[string]string{}
 						for _, fl := range st.Fields.List {
 							for _, fn := range fl.Names {
@@ -201,13 +219,17 @@ func Extract(repo string) (*Table, error) {
 								}
 								ti.Fields = append(ti.Fields, fn.Name)
 								ti.ref[fn.Name] = refKind(fl.Type)
+								_, ti.ptr[fn.Name] = fl.Type.(*ast.StarExpr)
 								switch fl.Type.(type) {
 								case *ast.StarExpr, *ast.SelectorExpr, *ast.Ident:
 									ft[fn.Name] = typeName(fl.Type)
 								}
 							}
 						}
-						if ti.Lock != "" && anchored(pkg, name) {
+						if ti.Lock == "" {
+							ti.Kind = "none"
+						}
+						if (ti.Lock != "" || need[ts.Name.Name]) && anchored(pkg, name) {
 							if _, dup := tab.Types[ts.Name.Name]; dup {
 								return nil, fmt.Errorf("two lock-carrying types named %s", ts.Name.Name)
 							}
@@ -258,15 +280,40 @@ func Extract(repo string) (*Table, error) {
 		if len(fd.d.Recv.List[0].Names) > 0 {
 			recv = fd.d.Recv.List[0].Names[0].Name
 		}
-		w := &walker{ti: ti, recv: recv, meths: meths[tn], sub: map[string]string{}}
+		w := &walker{tab: tab, ti: ti, recv: recv, meths: meths, sub: map[string]string{}, locals: map[string]lkind{}, peers: map[string]string{}}
 		for _, s := range ti.Sub {
 			w.sub[s[0]] = s[1]
 		}
+		peers := [][]string{}
+		for _, p := range fd.d.Type.Params.List {
+			pt := typeName(p.Type)
+			_, isPtr := p.Type.(*ast.StarExpr)
+			_, isId := p.Type.(*ast.Ident)
+			if _, qualified := p.Type.(*ast.SelectorExpr); qualified {
+				continue
+			}
+			if st, ok := p.Type.(*ast.StarExpr); ok {
+				if _, qualified := st.X.(*ast.SelectorExpr); qualified {
+					continue
+				}
+			}
+			for _, pn := range p.Names {
+				switch {
+				case (isPtr || isId) && tab.Types[pt] != nil: // another instance of a collection type
+					w.locals[pn.Name] = lkind{peer: true, obj: pn.Name}
+					w.peers[pn.Name] = pt
+					peers = append(peers, []string{pn.Name, pt})
+				case isPtr && structs[pt]: // a node of the instance (an entry, a list node)
+					w.locals[pn.Name] = lkind{node: true}
+				}
+			}
+		}
+		w.taint(fd.d.Body)
 		w.block(fd.d.Body)
 		for i := len(w.deferred) - 1; i >= 0; i-- {
 			w.deferred[i]()
 		}
-		m := &Method{Pub: ast.IsExported(fd.d.Name.Name), Steps: w.steps, Params: []string{},
+		m := &Method{Pub: ast.IsExported(fd.d.Name.Name), Steps: w.steps, Params: []string{}, Peers: peers,
 			Pos: fmt.Sprintf("%s:%d", ti.File, fset.Position(fd.d.Pos()).Line)}
 		if m.Steps == nil {
 			m.Steps = []Step{}
@@ -294,11 +341,34 @@ func Extract(repo string) (*Table, error) {
 	return tab, nil
 }
 
+// lkind: what a local variable or parameter of a method is known to hold
+// (flow-insensitive: whatever ANY assignment in the body gives it)
+//
+//	alias f   a copy of the reference field f (tab := recv.table): what lies
+//	          below it is what lies below recv.f
+//	node      a pointer into the instance's memory (e := tab[i]; e = e.next;
+//	          a parameter of a node type; what a same-receiver helper returned)
+//	peer      another instance of a table type (a parameter other *T, or a
+//	          copy of it); obj names that parameter
+//
+// obj != "": the memory belongs to the instance bound to parameter obj
+type lkind struct {
+	alias string
+	node  bool
+	peer  bool
+	obj   string
+}
+
+func (k lkind) known() bool { return k.alias != "" || k.node || k.peer }
+
 type walker struct {
+	tab      *Table
 	ti       *TypeInfo
 	recv     string
-	meths    map[string]bool
+	meths    map[string]map[string]bool // type -> method names
 	sub      map[string]string
+	locals   map[string]lkind
+	peers    map[string]string // peer parameter -> its table type
 	steps    []Step
 	deferred []func()
 }
@@ -324,16 +394,17 @@ func addSorted(xs []string, x string) []string {
 	return xs
 }
 
-// acc records one access; it is merged into the access step it directly follows
-func (w *walker) acc(f string, write bool) {
-	if n := len(w.steps); n == 0 || w.steps[n-1].K != "acc" {
-		w.emit(Step{K: "acc"})
+// acc records one access of location loc of the instance obj ("" = the
+// receiver); it is merged into the access step it directly follows (same obj)
+func (w *walker) acc(obj, loc string, write bool) {
+	if n := len(w.steps); n == 0 || w.steps[n-1].K != "acc" || w.steps[n-1].O != obj {
+		w.emit(Step{K: "acc", O: obj})
 	}
 	s := &w.steps[len(w.steps)-1]
 	if write {
-		s.W = addSorted(s.W, f)
+		s.W = addSorted(s.W, loc)
 	} else {
-		s.R = addSorted(s.R, f)
+		s.R = addSorted(s.R, loc)
 	}
 }
 
@@ -342,88 +413,309 @@ func (w *walker) isRecv(e ast.Expr) bool {
 	return ok && w.recv != "" && id.Name == w.recv
 }
 
-// rootField: e is recv.f, recv.f.x.y, recv.f[i], recv.f[i].x ... -> f; deep says
-// that e is something below the field (an element, a field of the node), not
-// the field itself
-func (w *walker) rootField(e ast.Expr) (f string, deep bool, ok bool) {
-	for {
-		switch t := e.(type) {
-		case *ast.SelectorExpr:
-			if w.isRecv(t.X) {
-				return t.Sel.Name, deep, true
-			}
-			e = t.X
-		case *ast.IndexExpr:
-			e = t.X
-		case *ast.StarExpr:
-			e = t.X
-		case *ast.ParenExpr:
-			e = t.X
-			continue
-		case *ast.SliceExpr:
-			e = t.X
-		default:
-			return "", false, false
+// typeOf: the table type of the instance obj
+func (w *walker) typeOf(obj string) *TypeInfo {
+	if obj == "" {
+		return w.ti
+	}
+	return w.tab.Types[w.peers[obj]]
+}
+
+func (w *walker) methsOf(obj string) map[string]bool {
+	if obj == "" {
+		return w.meths[w.ti.name]
+	}
+	return w.meths[w.peers[obj]]
+}
+
+// instance: e is the receiver or a peer (parameter / local copy of it) -> obj
+func (w *walker) instance(e ast.Expr) (obj string, ok bool) {
+	if p, isP := e.(*ast.ParenExpr); isP {
+		return w.instance(p.X)
+	}
+	if w.isRecv(e) {
+		return "", true
+	}
+	if id, isId := e.(*ast.Ident); isId {
+		if k := w.locals[id.Name]; k.peer {
+			return k.obj, true
 		}
-		deep = true
+	}
+	return "", false
+}
+
+// kindOf: what the value of e is known to be (see lkind)
+func (w *walker) kindOf(e ast.Expr) lkind {
+	switch t := e.(type) {
+	case *ast.Ident:
+		return w.locals[t.Name]
+	case *ast.ParenExpr:
+		return w.kindOf(t.X)
+	case *ast.TypeAssertExpr:
+		return w.kindOf(t.X)
+	case *ast.StarExpr:
+		if k := w.kindOf(t.X); k.known() && !k.peer {
+			return lkind{node: true, obj: k.obj}
+		}
+	case *ast.UnaryExpr:
+		if t.Op == token.AND {
+			if k := w.kindOf(t.X); k.known() && !k.peer {
+				return lkind{node: true, obj: k.obj}
+			}
+			if s, ok := t.X.(*ast.SelectorExpr); ok { // &recv.f: points into the instance
+				if obj, ok := w.instance(s.X); ok && !w.methsOf(obj)[s.Sel.Name] {
+					return lkind{node: true, obj: obj}
+				}
+			}
+		}
+	case *ast.SelectorExpr:
+		if obj, ok := w.instance(t.X); ok {
+			ti := w.typeOf(obj)
+			f := t.Sel.Name
+			if ti == nil || w.methsOf(obj)[f] || f == ti.Lock {
+				return lkind{}
+			}
+			if ti.ref[f] {
+				return lkind{alias: f, obj: obj}
+			}
+			return lkind{}
+		}
+		if k := w.kindOf(t.X); k.known() && !k.peer {
+			return lkind{node: true, obj: k.obj}
+		}
+	case *ast.IndexExpr:
+		if k := w.kindOf(t.X); k.known() && !k.peer {
+			return lkind{node: true, obj: k.obj}
+		}
+	case *ast.SliceExpr:
+		if k := w.kindOf(t.X); k.known() && !k.peer {
+			return k
+		}
+	case *ast.CallExpr: // what a method of the instance returns may point into it
+		if s, ok := t.Fun.(*ast.SelectorExpr); ok {
+			if obj, ok := w.instance(s.X); ok && w.methsOf(obj)[s.Sel.Name] {
+				return lkind{node: true, obj: obj}
+			}
+		}
+	}
+	return lkind{}
+}
+
+// taint: the flow-insensitive pre-pass that classifies the locals of a body
+func (w *walker) taint(body *ast.BlockStmt) {
+	set := func(lhs ast.Expr, k lkind) bool {
+		id, ok := lhs.(*ast.Ident)
+		if !ok || id.Name == "_" || id.Name == w.recv || !k.known() {
+			return false
+		}
+		if old := w.locals[id.Name]; old.known() {
+			if old == k || old.node || old.peer { // node absorbs; a peer stays a peer
+				return false
+			}
+			if old.alias != "" && k.alias != "" && old != k { // two different fields: just "instance memory"
+				w.locals[id.Name] = lkind{node: true, obj: old.obj}
+				return true
+			}
+			if !k.node {
+				return false
+			}
+		}
+		w.locals[id.Name] = k
+		return true
+	}
+	for round := 0; round < 6; round++ {
+		changed := false
+		ast.Inspect(body, func(n ast.Node) bool {
+			switch t := n.(type) {
+			case *ast.AssignStmt:
+				if len(t.Lhs) == len(t.Rhs) {
+					for i := range t.Lhs {
+						if set(t.Lhs[i], w.kindOf(t.Rhs[i])) {
+							changed = true
+						}
+					}
+				} else if len(t.Rhs) == 1 && len(t.Lhs) > 0 {
+					if set(t.Lhs[0], w.kindOf(t.Rhs[0])) {
+						changed = true
+					}
+				}
+			case *ast.RangeStmt:
+				if k := w.kindOf(t.X); k.known() && !k.peer && t.Value != nil {
+					if set(t.Value, lkind{node: true, obj: k.obj}) {
+						changed = true
+					}
+				}
+			case *ast.ValueSpec:
+				for i, n := range t.Names {
+					if i < len(t.Values) && set(n, w.kindOf(t.Values[i])) {
+						changed = true
+					}
+				}
+			}
+			return true
+		})
+		if !changed {
+			break
+		}
 	}
 }
 
-// touch records an access of field f (deep: of what f refers to).  For a
-// reference field the two are different memory: reading len(recv.table) and
-// writing recv.table[i] do not conflict, replacing recv.table conflicts with
-// both.  "f*" stands for everything reachable from f.
-func (w *walker) touch(f string, deep, write bool) {
-	if f == w.ti.Lock {
-		return
-	}
-	if deep && w.ti.ref[f] {
-		w.acc(f, false)
-		w.acc(f+"*", write)
-		return
-	}
-	w.acc(f, write)
-}
-
-// inner walks the index / slice-bound expressions inside a chain rooted at the receiver
-func (w *walker) inner(e ast.Expr) {
-	for {
-		switch t := e.(type) {
+// path handles an expression that is a chain of selectors / indexes / derefs
+// rooted at the receiver, at a peer or at a local known to hold instance
+// memory: every prefix is a read, the whole expression a read or (write) a
+// write (rw: both).  Locations:
+//
+//	f      the receiver field f itself (for a field of a value type also
+//	       everything inside it)
+//	f*     the elements behind the slice / map field f
+//	*.n    field n of SOME node of the instance (everything reached through a
+//	       pointer: entries, list nodes; one summary location per field name)
+//	*[]    an element of some nested slice
+//
+// Returns false when e is not such a chain (the caller walks its parts).
+func (w *walker) path(e ast.Expr, write, rw bool) bool {
+	var chain []ast.Expr
+	cur := e
+	var root *ast.Ident
+	for root == nil {
+		switch t := cur.(type) {
 		case *ast.SelectorExpr:
-			e = t.X
+			chain = append(chain, t)
+			cur = t.X
+		case *ast.IndexExpr:
+			chain = append(chain, t)
+			cur = t.X
+		case *ast.SliceExpr:
+			chain = append(chain, t)
+			cur = t.X
+		case *ast.StarExpr:
+			chain = append(chain, t)
+			cur = t.X
+		case *ast.ParenExpr:
+			cur = t.X
+		case *ast.TypeAssertExpr:
+			cur = t.X
+		case *ast.Ident:
+			root = t
+		default:
+			return false
+		}
+	}
+	const (
+		sInst = iota
+		sValue
+		sSlice
+		sNode
+	)
+	st, obj, fld := -1, "", ""
+	after := func(f string) {
+		ti := w.typeOf(obj)
+		fld = f
+		switch {
+		case ti == nil || !ti.ref[f]:
+			st = sValue
+		case ti.ptr[f]:
+			st = sNode
+		default:
+			st = sSlice
+		}
+	}
+	if o, ok := w.instance(root); ok {
+		st, obj = sInst, o
+	} else if k := w.locals[root.Name]; k.alias != "" {
+		obj = k.obj
+		after(k.alias)
+	} else if k.node {
+		st, obj = sNode, k.obj
+	} else {
+		return false
+	}
+	if len(chain) == 0 {
+		return false
+	}
+	if st == sInst { // recv.lock..., recv.Method: not memory of the collection
+		if s, ok := chain[len(chain)-1].(*ast.SelectorExpr); ok {
+			ti := w.typeOf(obj)
+			if ti == nil || w.methsOf(obj)[s.Sel.Name] {
+				return false
+			}
+			if ti.Lock != "" && s.Sel.Name == ti.Lock {
+				return true
+			}
+		}
+	}
+	for i := len(chain) - 1; i >= 0; i-- { // index expressions and slice bounds inside the chain are reads of their own
+		switch t := chain[i].(type) {
 		case *ast.IndexExpr:
 			w.expr(t.Index)
-			e = t.X
-		case *ast.StarExpr:
-			e = t.X
-		case *ast.ParenExpr:
-			e = t.X
 		case *ast.SliceExpr:
 			w.expr(t.Low)
 			w.expr(t.High)
 			w.expr(t.Max)
-			e = t.X
-		default:
-			return
 		}
 	}
+	for i := len(chain) - 1; i >= 0; i-- {
+		loc := ""
+		switch st {
+		case sInst:
+			s, ok := chain[i].(*ast.SelectorExpr)
+			if !ok { // *recv
+				continue
+			}
+			loc = s.Sel.Name
+			after(loc)
+		case sValue:
+			loc = fld
+		case sSlice:
+			loc = fld + "*"
+			if _, isSl := chain[i].(*ast.SliceExpr); !isSl {
+				st = sNode
+			}
+		case sNode:
+			switch t := chain[i].(type) {
+			case *ast.SelectorExpr:
+				loc = "*." + t.Sel.Name
+			case *ast.IndexExpr, *ast.SliceExpr:
+				loc = "*[]"
+			}
+		}
+		if loc == "" {
+			continue
+		}
+		if i == 0 && write {
+			if rw {
+				w.acc(obj, loc, false)
+			}
+			w.acc(obj, loc, true)
+		} else {
+			w.acc(obj, loc, false)
+		}
+	}
+	return true
 }
 
-// lockCall recognises recv.lock.M() and recv.lock.L.M()
-func (w *walker) lockCall(c *ast.CallExpr) string {
+// lockCall recognises x.lock.M() and x.lock.L.M() for x the receiver or a peer
+func (w *walker) lockCall(c *ast.CallExpr) (m, obj string) {
 	sel, ok := c.Fun.(*ast.SelectorExpr)
 	if !ok {
-		return ""
+		return "", ""
 	}
 	x := sel.X
 	if s2, ok := x.(*ast.SelectorExpr); ok && s2.Sel.Name == "L" {
 		x = s2.X
 	}
 	s3, ok := x.(*ast.SelectorExpr)
-	if !ok || !w.isRecv(s3.X) || s3.Sel.Name != w.ti.Lock {
-		return ""
+	if !ok {
+		return "", ""
 	}
-	return sel.Sel.Name
+	o, isInst := w.instance(s3.X)
+	if !isInst {
+		return "", ""
+	}
+	if ti := w.typeOf(o); ti == nil || ti.Lock == "" || s3.Sel.Name != ti.Lock {
+		return "", ""
+	}
+	return sel.Sel.Name, o
 }
 
 func (w *walker) block(b *ast.BlockStmt) {
@@ -474,11 +766,13 @@ func (w *walker) stmt(s ast.Stmt) {
 		w.block(t.Body)
 		w.stmt(t.Post)
 	case *ast.RangeStmt:
-		if f, _, ok := w.rootField(t.X); ok && !w.meths[f] { // ranging over a field reads what it holds
-			w.inner(t.X)
-			w.touch(f, true, false)
-		} else {
-			w.expr(t.X)
+		w.expr(t.X)
+		if k := w.kindOf(t.X); k.alias != "" { // ranging over a slice / map field reads its elements
+			if ti := w.typeOf(k.obj); ti != nil && !ti.ptr[k.alias] {
+				w.acc(k.obj, k.alias+"*", false)
+			}
+		} else if k.node {
+			w.acc(k.obj, "*[]", false)
 		}
 		if t.Tok == token.ASSIGN {
 			if t.Key != nil {
@@ -531,15 +825,10 @@ func (w *walker) stmt(s ast.Stmt) {
 
 // lhs: an assignment target; also reads the target when rw (+=, ++)
 func (w *walker) lhs(e ast.Expr, rw bool) {
-	if f, deep, ok := w.rootField(e); ok {
-		w.inner(e) // index expressions and the like inside the target are reads
-		if rw {
-			w.touch(f, deep, false)
-		}
-		w.touch(f, deep, true)
+	if w.path(e, true, rw) {
 		return
 	}
-	// a target that is not rooted at the receiver: only its sub-expressions matter
+	// a target that is not instance memory: only its sub-expressions matter
 	switch t := e.(type) {
 	case *ast.SelectorExpr:
 		w.expr(t.X)
@@ -548,6 +837,8 @@ func (w *walker) lhs(e ast.Expr, rw bool) {
 		w.expr(t.X)
 	case *ast.StarExpr:
 		w.expr(t.X)
+	case *ast.ParenExpr:
+		w.lhs(t.X, rw)
 	}
 }
 
@@ -557,31 +848,43 @@ func (w *walker) call(c *ast.CallExpr, argsToo bool) {
 			w.expr(a)
 		}
 	}
-	if lm := w.lockCall(c); lm != "" {
+	if lm, obj := w.lockCall(c); lm != "" {
 		switch lm {
-		case "Lock", "RLock":
-			w.emit(Step{K: "acq"})
-		case "Unlock", "RUnlock":
-			w.emit(Step{K: "rel"})
+		case "Lock":
+			w.emit(Step{K: "acq", O: obj})
+		case "Unlock":
+			w.emit(Step{K: "rel", O: obj})
+		case "RLock": // shared: other holders in shared mode are not excluded
+			w.emit(Step{K: "acq", A: "shared", O: obj})
+		case "RUnlock":
+			w.emit(Step{K: "rel", A: "shared", O: obj})
 		case "Wait": // gives the lock up while waiting and takes it again: ONE operation by design
-			w.emit(Step{K: "rel", A: "wait"})
-			w.emit(Step{K: "acq", A: "wait"})
+			w.emit(Step{K: "rel", A: "wait", O: obj})
+			w.emit(Step{K: "acq", A: "wait", O: obj})
 		}
 		return
 	}
 	if sel, ok := c.Fun.(*ast.SelectorExpr); ok {
-		if w.isRecv(sel.X) {
-			if w.meths[sel.Sel.Name] {
-				w.emit(Step{K: "call", B: sel.Sel.Name})
-			} else { // a func-typed field
-				w.acc(sel.Sel.Name, false)
+		if obj, isInst := w.instance(sel.X); isInst {
+			if w.methsOf(obj)[sel.Sel.Name] {
+				w.emit(Step{K: "call", B: sel.Sel.Name, O: obj})
+			} else if ti := w.typeOf(obj); ti != nil && sel.Sel.Name != ti.Lock { // a func-typed field
+				w.acc(obj, sel.Sel.Name, false)
 			}
 			return
 		}
+		// a method of a sub-object (a field holding another table type), named directly or through a local copy
 		if s2, ok := sel.X.(*ast.SelectorExpr); ok && w.isRecv(s2.X) {
 			if _, isSub := w.sub[s2.Sel.Name]; isSub {
-				w.acc(s2.Sel.Name, false)
+				w.acc("", s2.Sel.Name, false)
 				w.emit(Step{K: "call", A: s2.Sel.Name, B: sel.Sel.Name})
+				return
+			}
+		}
+		if k := w.kindOf(sel.X); k.alias != "" && k.obj == "" {
+			if _, isSub := w.sub[k.alias]; isSub {
+				w.expr(sel.X)
+				w.emit(Step{K: "call", A: k.alias, B: sel.Sel.Name})
 				return
 			}
 		}
@@ -597,24 +900,18 @@ func (w *walker) expr(e ast.Expr) {
 	case *ast.CallExpr:
 		w.call(t, true)
 	case *ast.SelectorExpr:
-		if w.isRecv(t.X) {
-			if t.Sel.Name != w.ti.Lock && !w.meths[t.Sel.Name] {
-				w.acc(t.Sel.Name, false)
-			}
-			return
-		}
-		if w.chain(e) {
+		if w.path(e, false, false) {
 			return
 		}
 		w.expr(t.X)
 	case *ast.IndexExpr:
-		if w.chain(e) {
+		if w.path(e, false, false) {
 			return
 		}
 		w.expr(t.X)
 		w.expr(t.Index)
 	case *ast.SliceExpr:
-		if w.chain(e) {
+		if w.path(e, false, false) {
 			return
 		}
 		w.expr(t.X)
@@ -622,7 +919,7 @@ func (w *walker) expr(e ast.Expr) {
 		w.expr(t.High)
 		w.expr(t.Max)
 	case *ast.StarExpr:
-		if w.chain(e) {
+		if w.path(e, false, false) {
 			return
 		}
 		w.expr(t.X)
@@ -644,17 +941,6 @@ func (w *walker) expr(e ast.Expr) {
 	case *ast.FuncLit:
 		w.block(t.Body)
 	}
-}
-
-// chain: e is an expression below a receiver field (recv.f.x, recv.f[i] ...): a read of it
-func (w *walker) chain(e ast.Expr) bool {
-	f, deep, ok := w.rootField(e)
-	if !ok || w.meths[f] {
-		return false
-	}
-	w.inner(e)
-	w.touch(f, deep, false)
-	return true
 }
 
 // WriteTable writes the table as one JSON object (the TLC constant) to path.
